@@ -457,7 +457,9 @@ fn render_deco(r: &mut R, depth: usize, d: &PDeco) {
         }
         PDeco::Parametrize { argnames, indirect, subset_mask, form } => {
             let names: Vec<&str> = argnames.iter().map(|n| PNAMES[*n]).collect();
-            let argstr = quote(&names.join(","), if *form == 5 { 0 } else { *form });
+            // pytest strips the names of a comma separated argnames string: spacing is free
+            let sep = [",", ", ", " , ", ",  "][((subset_mask >> 4) % 4) as usize];
+            let argstr = quote(&names.join(sep), if *form == 5 { 0 } else { *form });
             let vals = if names.len() == 1 { "[1]".to_string() } else { format!("[({})]", vec!["1"; names.len()].join(", ")) };
             let ind = match indirect % 4 {
                 0 => ", indirect=True".to_string(),
